@@ -13,6 +13,14 @@ import threading
 CALLS = []          # (incarnation key, item) — scheduled runs only
 
 
+class BadInt(int):
+    """an item that cannot be pickled (the loader's Pickler turns the error into a CobaException)"""
+
+    def __reduce_ex__(self, protocol):
+        import pickle
+        raise pickle.PicklingError("Can't pickle BadInt %d: c08 unpicklable item" % int(self))
+
+
 class C08Error(Exception):
     """a picklable user exception"""
 
